@@ -77,6 +77,8 @@ package sonic
 
 //@ func (*file).scheduleRead
 //@   prop C01, C02, C03
+//@   // a completion made here (closed, or the registration failed) is an error with no more than the progress made
+//@   assert any call cb: [C02 count-bounded] arg0 != nil && (arg1 == 0 || arg1 == readSoFar)
 //@   requires fInv(f) && cb != nil && !armedR(f)
 //@   // either the callback runs now (closed, or the registration failed) or the read is armed
 //@   consumes cb unless armedR(f)
@@ -150,6 +152,8 @@ package sonic
 
 //@ func (*file).scheduleWrite
 //@   prop C01, C02, C03
+//@   // a completion made here (closed, or the registration failed) is an error with no more than the progress made
+//@   assert any call cb: [C02 count-bounded] arg0 != nil && (arg1 == 0 || arg1 == wroteSoFar)
 //@   requires fInv(f) && cb != nil && !armedW(f)
 //@   // either the callback runs now (closed, or the registration failed) or the write is armed
 //@   consumes cb unless armedW(f)
